@@ -97,6 +97,7 @@ theorem hitsOfFace_eq (s : Surface ℝ) (pos dir : Vec3 ℝ) (hu : unitDir dir) 
       simp only [List.filter_cons, hd, Option.isSome_some, if_true, List.filterMap_cons, id,
         List.map_cons]
       rw [ih']
+      rfl
 
 /-! ### counting the hits of a face among the events -/
 
@@ -137,7 +138,10 @@ theorem mem_gather (u : SimpleUnit ℝ) (pos dir : Vec3 ℝ) (hu : unitDir dir) 
       | zero =>
         left
         refine List.mem_map.2 ⟨d, by simpa using hd, ?_⟩
-        cases h; simp_all
+        cases h
+        simp only [Nat.add_zero] at hf
+        simp only at hdist
+        subst hf; subst hdist; rfl
       | succ j =>
         right
         exact ⟨j, by simpa using hj, by omega, d, by simpa using hd, hdist⟩
@@ -160,8 +164,6 @@ theorem count_gather (u : SimpleUnit ℝ) (pos dir : Vec3 ℝ) (hu : unitDir dir
         = fun d => (k == i) && decide (d < t) := by
       funext d
       simp only [Function.comp, dlt]
-      congr 1
-      show decide (d < t) = decide (d < t)
       rfl
     rw [hfun]
     by_cases hki : k = i
@@ -169,7 +171,7 @@ theorem count_gather (u : SimpleUnit ℝ) (pos dir : Vec3 ℝ) (hu : unitDir dir
       have h1 : ¬ (k + 1 ≤ k ∧ k - (k + 1) < rest.length) := by omega
       simp [h1]
     · have hne : (k == i) = false := by simpa using hki
-      simp only [hne, Bool.false_and, List.countP_false, zero_add]
+      simp only [hne, Bool.false_and, List.countP_false, Function.const, zero_add]
       by_cases hk : k ≤ i ∧ i - k < (sid :: rest).length
       · have hk' : k + 1 ≤ i ∧ i - (k + 1) < rest.length := by
           simp only [List.length_cons] at hk; omega
@@ -254,9 +256,10 @@ theorem senses_flip_at_events (u : SimpleUnit ℝ) (faces : List ℕ) (pos dir :
     have hqt : (u.surf faces[i]).quadric (along pos dir t) ≠ 0 := by
       intro hz
       exact hnr _ hmem (faceRoots_complete _ pos dir hu hgp t ht hz)
-    simp only [sensesOf, Array.getD, List.size_toArray, List.length_map, hi', dite_true,
-      List.getElem_toArray, List.getElem_map]
-    rw [sense_eq_decide _ _ hqt, sense_eq_decide _ _ hq0, hpar]
+    have e1 : ∀ p, (sensesOf u faces p).toArray.getD i false
+        = ((u.surf faces[i]).calcSense p != SignedSense.inside) := by
+      intro p; simp [sensesOf, Array.getD, hi']
+    rw [e1, e1, sense_eq_decide _ _ hqt, sense_eq_decide _ _ hq0, hpar]
 
 /-- on the open interval behind the first `k` events (and before the others) the events nearer
     than `t` are exactly the first `k` -/
